@@ -14,6 +14,7 @@ from .common import dispatch_ops, op_table, trace_str
 def check(repo: Repo, rep, tier):
     rep.not_decided = "optimality of the alignment (longest common subsequence); survival of element text through generic_sequence_update"
     match_guard(repo, rep)
+    align_complete(repo, rep)
     script_table(repo, rep)
     align_readonly(repo, rep)
     equal_keeps(repo, rep)
@@ -361,3 +362,47 @@ def pair_len(repo: Repo, rep):
             rep.ok("R-PAIR-LEN", f, c, "pairing only after the lengths were found equal")
         else:
             rep.violation("R-PAIR-LEN", f, c, "DictAdapter.assign pairs mapping keys with display values by position without checking that the display has exactly one entry per key: with a key written twice, fix edits the first occurrence while the last one (the one that counts) keeps its stale value", construct="dict-pair-len")
+
+
+def align_complete(repo: Repo, rep):
+    rep.rule(
+        "R-ALIGN-COMPLETE",
+        "every return of align() is either the all-equal early return (`'m' * n` under `start == len(a) == len(b)`) or is built from nw_align() of the "
+        "window between the equal prefix and suffix: no path replaces the alignment of the window by a wholesale delete+insert (equal elements in the middle "
+        "of a changed region would lose their text)",
+    )
+    f = repo.func("_align.py::align")
+    cfg = cfg_of(f)
+    n = 0
+    for r in cfg.stmts(ast.Return):
+        v = r.ast.value
+        n += 1
+        if v is None:
+            rep.violation("R-ALIGN-COMPLETE", f, r.ast, "align() returns nothing on a path", construct="none")
+            continue
+        from ..defuse import derives_from
+
+        uses_nw = derives_from(cfg, r, v, lambda x: isinstance(x, ast.Call) and norm(x.func) == "nw_align")
+        letters = {c.value for c in ast.walk(v) if isinstance(c, ast.Constant) and isinstance(c.value, str)}
+        # every definition of a name used in the result must be the alignment itself, not a literal script
+        for nm in {x.id for x in ast.walk(v) if isinstance(x, ast.Name)}:
+            for d in reaching_defs(cfg, r, nm):
+                dv = def_value(d, nm)
+                if dv is not None:
+                    letters |= {c.value for c in ast.walk(dv) if isinstance(c, ast.Constant) and isinstance(c.value, str) and c.value}
+        if uses_nw and letters - {"m"}:
+            rep.violation("R-ALIGN-COMPLETE", f, r.ast, f"align() can build its result from the literal edit letters {sorted(letters - {'m'})} instead of nw_align() on some path: unchanged elements inside the changed region are deleted and re-inserted, losing their hand-written text", construct="bypass-nw")
+            continue
+        if uses_nw:
+            rep.ok("R-ALIGN-COMPLETE", f, r.ast, "window aligned by nw_align")
+        elif letters <= {"m"}:
+            guards = [(c, "T") for c in cfg.conds() if isinstance(c.ast, ast.Compare) and "len(" in norm(c.ast) and all(isinstance(o, ast.Eq) for o in c.ast.ops)]
+            from ..cfg import edges_dominate
+
+            if guards and edges_dominate(cfg, guards, r):
+                rep.ok("R-ALIGN-COMPLETE", f, r.ast, "all-equal early return")
+            else:
+                rep.violation("R-ALIGN-COMPLETE", f, r.ast, "align() reports everything as matched without having compared the lengths", construct="m-unguarded")
+        else:
+            rep.violation("R-ALIGN-COMPLETE", f, r.ast, f"align() has a path that returns `{short(v, 50)}` without aligning the window with nw_align: unchanged elements inside the changed region are deleted and re-inserted, losing their hand-written text", construct="bypass-nw")
+    rep.floor("R-ALIGN-COMPLETE", "returns of align()", n, 2)
